@@ -332,6 +332,60 @@ var failClasses = []failClass{
 		s.Facts.UpdateCommitment = s.Spec.UpdateCommitment
 		s.Facts.DeltaValid = false
 	}},
+	{"delta-update-commitment-padded", "cur", func(h *histCtx, s *opStep) {
+		// hashes are unpadded base64url: "<valid hash>=" / "==" is not a multihash string
+		s.Spec.UpdateCommitment = s.Spec.UpdateCommitment + fw.Pick(h.r, []string{"=", "=="})
+		s.Facts.UpdateCommitment = s.Spec.UpdateCommitment
+		s.Facts.DeltaValid = false
+	}},
+	{"delta-update-commitment-reuses-signing-key-padded", "u", func(h *histCtx, s *opStep) {
+		s.Spec.UpdateCommitment = s.Spec.Signer.Commitment(h.code) + "="
+		s.Facts.UpdateCommitment = s.Spec.UpdateCommitment
+		s.Facts.DeltaValid = false
+	}},
+	{"recovery-commitment-padded", "cr", func(h *histCtx, s *opStep) {
+		s.Spec.RecoveryCommitment = s.Spec.RecoveryCommitment + fw.Pick(h.r, []string{"=", "=="})
+		s.Facts.RecoveryCommitment = s.Spec.RecoveryCommitment
+		s.Facts.ParseOK = false
+	}},
+	{"recovery-commitment-equals-update-commitment-padded", "cr", func(h *histCtx, s *opStep) {
+		s.Spec.RecoveryCommitment = s.Spec.UpdateCommitment + "="
+		s.Facts.RecoveryCommitment = s.Spec.RecoveryCommitment
+		s.Facts.ParseOK = false
+	}},
+	{"recovery-commitment-reuses-signing-key-padded", "r", func(h *histCtx, s *opStep) {
+		s.Spec.RecoveryCommitment = s.Spec.Signer.Commitment(h.code) + "="
+		s.Facts.RecoveryCommitment = s.Spec.RecoveryCommitment
+		s.Facts.ParseOK = false
+	}},
+	{"delta-hash-padded", "cur", func(h *histCtx, s *opStep) {
+		s.Spec.PostBuildDeltaHash = func(honest string) string { return honest + "=" }
+		s.Facts.ParseOK = false
+	}},
+	{"reveal-padded", "urd", func(h *histCtx, s *opStep) {
+		s.Spec.Reveal = gen.S(s.Spec.Signer.Reveal(h.code) + "=")
+		s.Facts.ParseOK = false
+	}},
+	{"nonce-not-base64url", "urd", func(h *histCtx, s *opStep) {
+		// right length for the configured size, but not base64url text
+		n := len(oracle.B64(make([]byte, h.proto.NonceSize)))
+		k := *s.Spec.Signer
+		good := oracle.B64(h.r.Bytes(int(h.proto.NonceSize)))
+		switch h.r.Intn(5) {
+		case 0:
+			k.Nonce = strings.Repeat("!", n)
+		case 1:
+			k.Nonce = good[:n-2] + "+/"
+		case 2:
+			k.Nonce = good[:n/2] + "=" + good[n/2+1:]
+		case 3:
+			k.Nonce = good[:n-1] + " "
+		default:
+			k.Nonce = "plain text nonce, 22 ch"[:n]
+		}
+		s.Spec.Signer = &k
+		s.Facts.ParseOK = false
+	}},
 	{"delta-too-large", "cur", func(h *histCtx, s *opStep) {
 		var keys []interface{}
 		for i := 0; i < 40; i++ {
